@@ -930,3 +930,5 @@ func decodeNflog(b []byte) ([]NflogEntry, error) {
 			Timestamp: e.Entry.Timestamp.AsTime(), ExpiresAt: e.ExpiresAt.AsTime(), Firing: len(e.Entry.FiringAlerts), Resolved: len(e.Entry.ResolvedAlerts)})
 	}
 }
+
+func sortStrings(s []string) { sort.Strings(s) }
